@@ -225,7 +225,7 @@ Lemma rest_wf_entry : forall z k t ds, rest_wf z -> look z k = Some (t, ds) ->
 Proof.
   intros z k t ds Hwf Hl. pose proof (rest_wf_look z k _ Hwf Hl) as Hin.
   destruct Hwf as [_ Hf]. rewrite Forall_forall in Hf. apply Hf in Hin.
-  destruct k as [[n ty] c]. cbn in Hin. destruct Hin as (Hn & Ht & Httl & Hne & Hs).
+  destruct k as [[n ty] c]. cbn in Hin. destruct Hin as (Hn & Ht & Httl & Hne & Hs & Hsg).
   split; [exact Hne|]. split; [exact Hs|]. split; [exact Httl|]. split; [|exact Hn].
   intros E. inversion E. subst. apply Ht. reflexivity.
 Qed.
